@@ -970,6 +970,15 @@ def r33(ctx: Ctx) -> RuleReport:
         rep.add(f'{fi.fq}: no marker lands in two buckets', fi.loc(loop), 'violation' if twice else 'ok')
     rets = [n for n in walk_local(fi.node) if isinstance(n, ast.Return) and n.value is not None]
     buckets = [norm(e) for e in rets[0].value.elts] if rets and isinstance(rets[0].value, ast.Tuple) else []
+    nt_fields: List[str] = []
+    if rets and isinstance(rets[0].value, ast.Call) and isinstance(rets[0].value.func, ast.Name) and rets[0].value.func.id in fi.module.classes:
+        # a NamedTuple result:  return _SplitMarkers(push=push, pops=pops, ...)  (or positionally)
+        cdef = fi.module.classes[rets[0].value.func.id].node
+        nt_fields = [b.target.id for b in cdef.body if isinstance(b, ast.AnnAssign) and isinstance(b.target, ast.Name)]
+        rc = rets[0].value
+        byname = {k.arg: norm(k.value) for k in rc.keywords if k.arg}
+        pos = [norm(a) for a in rc.args]
+        buckets = [(pos[i] if i < len(pos) else byname.get(fld, '?')) for i, fld in enumerate(nt_fields)]
     stored = set()
     from ..resolve import unique_def
     for n in ast.walk(loop):
@@ -991,6 +1000,17 @@ def r33(ctx: Ctx) -> RuleReport:
             if isinstance(n, ast.Assign) and isinstance(n.targets[0], ast.Tuple) and isinstance(n.value, ast.Call) \
                     and norm(n.value.func) == '_reified_markers':
                 unp = [norm(e) for e in n.targets[0].elts]
+        if unp is None and len(nt_fields) == 4:
+            # markers = _reified_markers(epidata);  markers.push, markers.pops, ...: a field that is never read counts as discarded
+            for n in walk_local(f2.node):
+                if isinstance(n, ast.Assign) and len(n.targets) == 1 and isinstance(n.targets[0], ast.Name) and isinstance(n.value, ast.Call) \
+                        and norm(n.value.func) == '_reified_markers':
+                    mv_ = n.targets[0].id
+                    reads_ = {x.attr for x in walk_local(f2.node) if isinstance(x, ast.Attribute) and norm(x.value) == mv_ and isinstance(x.ctx, ast.Load)}
+                    whole_ = [x for x in walk_local(f2.node) if isinstance(x, ast.Name) and x.id == mv_ and isinstance(x.ctx, ast.Load)
+                              and not isinstance(ctx.repo.parent_map(f2.node).get(id(x)), ast.Attribute)]
+                    if not whole_:
+                        unp = [f'{mv_}.{fld}' if fld in reads_ else '_' for fld in nt_fields]
         if unp is None or len(unp) != 4:
             raise AnalysisError(f'{f2.fq}: does not unpack the four buckets of _reified_markers')
         for i, nm in enumerate(unp):
@@ -1001,14 +1021,16 @@ def r33(ctx: Ctx) -> RuleReport:
                         else 'markers of this kind are silently lost')
                 continue
             pm2 = ctx.repo.parent_map(f2.node)
-            used = sum(1 for n in walk_local(f2.node) if isinstance(n, ast.Name) and n.id == nm and isinstance(n.ctx, ast.Load)
+            used = sum(1 for n in walk_local(f2.node) if isinstance(n, (ast.Name, ast.Attribute)) and norm(n) == nm and isinstance(n.ctx, ast.Load)
                        and not isinstance(pm2.get(id(n)), (ast.If, ast.While, ast.BoolOp, ast.UnaryOp, ast.Compare)))      # a mere test does not carry it over
             # where the bucket is handed on (append / extend / returned / aliased), the only admissible condition is "the bucket is not empty"
             from ..resolve import facts_ex as _fx
             extra = None
             for n in walk_local(f2.node):
                 if isinstance(n, ast.Call) and isinstance(n.func, ast.Attribute) and n.func.attr in ('append', 'extend', 'insert') and n.args and norm(n.args[-1]) == nm:
-                    conds = [(f, pol) for f, pol in _fx(ctx, f2, n) if not (f == nm and pol) and f not in (f'{nm} is not None', f'{nm} is None', f'len({nm})', f'len({nm}) > 0')]
+                    fld_ = nm.split('.', 1)[1] if '.' in nm else None
+                    conds = [(f, pol) for f, pol in _fx(ctx, f2, n) if not (f == nm and pol) and f not in (f'{nm} is not None', f'{nm} is None', f'len({nm})', f'len({nm}) > 0')
+                             and not (fld_ and pol and f.startswith('_reified_markers(') and f.endswith(f').{fld_}'))]
                     if conds:
                         extra = (n, conds)
             if extra and used:
@@ -1627,4 +1649,56 @@ def r94(ctx: Ctx) -> RuleReport:
         for k in keeps:
             rep.add(f'{fi.fq}: an unchanged triple keeps its place', fi.loc(k), 'ok' if k.func.attr == 'append' else 'violation',
                     '' if k.func.attr == 'append' else f'`{norm(k)[:40]}` moves the triple to the front: the triple order, and with it the layout of the encoded text, is scrambled')
+    return rep
+
+
+# ---------------------------------------------------------------------------------------------
+@rule('R137', 'when a relation node is collapsed, its two relations change places exactly when the second one is the triple that OPENS the node (its Push names the node)')
+def r137(ctx: Ctx) -> RuleReport:
+    """The decision must be read off the Push marker: get_pushed_variable(g, <second>) == <node variable>.  appears_inverted() agrees with that for a
+    triple that carries a Push, but is also true for a Push-less triple whose target is the current node context - then the two relations are
+    exchanged although the node was opened by the first, and the dereified triple inherits the Push of the node that has just been removed."""
+    from ..resolve import facts_ex, local_callees
+    rep = RuleReport('R137', r137.title, floor=1)
+    root = ctx.repo.func('penman.transform', '_dereify_agenda')
+    key = f'{root.fq}: the order of the two relations handed to Model.dereify is decided by which of them pushes the node'
+    found = False
+    # the order in which the two relations are handed to Model.dereify names them: (first, second)
+    ref = None
+    for fi in [f for f in local_callees(ctx, root, depth=1) if f.module.name == root.module.name]:
+        for c in walk_local(fi.node):
+            if isinstance(c, ast.Call) and isinstance(c.func, ast.Attribute) and c.func.attr == 'dereify' and len(c.args) == 3 and all(isinstance(a, ast.Name) for a in c.args[1:]):
+                ref = (c.args[1].id, c.args[2].id)
+    for fi in [f for f in local_callees(ctx, root, depth=1) if f.module.name == root.module.name]:
+        pair_assigns = [n for n in walk_local(fi.node) if isinstance(n, ast.Assign) and len(n.targets) == 1 and isinstance(n.targets[0], ast.Tuple)
+                        and len(n.targets[0].elts) == 2 and all(isinstance(e, ast.Name) for e in n.targets[0].elts)]
+        for n in pair_assigns:
+            tg = [e.id for e in n.targets[0].elts]
+            fx = facts_ex(ctx, fi, n)
+            for f, pol in fx:
+                f0 = f.replace(' ', '')
+                if 'get_pushed_variable(' not in f0 and 'appears_inverted(' not in f0:
+                    continue
+                # which assignment is this: the exchange (a, b = b, a  /  b, a = <what a, b was unpacked from>), or the plain order?
+                exchange = isinstance(n.value, ast.Tuple) and [norm(e) for e in n.value.elts] == tg[::-1]
+                rev_unpack = not isinstance(n.value, ast.Tuple) and ref is not None and tg == list(ref)[::-1]
+                if not (exchange or rev_unpack):
+                    continue
+                found = True
+                if 'get_pushed_variable(' in f0:
+                    eq = ('==' in f0 and pol) or ('!=' in f0 and not pol)
+                    ne = ('!=' in f0 and pol) or ('==' in f0 and not pol)
+                    if eq:
+                        rep.ok(key, fi.loc(n), f)
+                    elif ne:
+                        rep.violation(key, fi.loc(n), f'the two relations change places when the second one does NOT push the node ({f} is {pol}): the dereified edge points the wrong way')
+                    else:
+                        rep.undecided(key, fi.loc(n), f'{norm(n)[:40]} under {f} = {pol}')
+                else:
+                    rep.violation(key, fi.loc(n), f'`{norm(n)[:50]}` is decided by `{f}`: appears_inverted is also true for a triple WITHOUT a Push whose target is the node context it '
+                                  f'appears in, e.g. the second relation of "(a :ARG1-of (_ / have-mod-91) :ARG0 (b :ARG2-of _))". The relations are then exchanged although the node was '
+                                  f'opened by the first one, and the dereified triple keeps Push(_) for a node that no longer exists: reifying and indicating branches afterwards '
+                                  f'yields more top-role triples than nested nodes')
+    if not found:
+        rep.undecided(key, root.loc(), 'no assignment to the two relation names is guarded by a test of the pushed variable')
     return rep
